@@ -177,6 +177,7 @@ class Crate:
                'pub fn usedep() -> u32 { dep::f() + %d }\n' % rng.below(100),
                'pub fn reg() -> Option<&\'static str> { option_env!("CARGO_REGISTRIES_MIRROR_TOKEN") }\n',
                'pub fn lint_probe() -> u32 { let unused_probe = 3; 4 }\n',
+               'pub static PLUGIN: &[u8] = include_bytes!("../assets/plugin.so");\n',
                '#[cfg(not(debug_assertions))]\npub mod fast;\n#[cfg(debug_assertions)]\npub mod slow;\n']
         if self.have_cc:
             lib.append('extern "C" { fn foo_version() -> i32; }\npub fn foov() -> i32 { unsafe { foo_version() } }\n')
@@ -185,6 +186,7 @@ class Crate:
         self.files['src/beta.rs'] = 'pub mod inner;\npub fn b() -> u32 { inner::deep() }\n'
         self.files['src/beta/inner.rs'] = 'pub fn deep() -> u32 { %d }\n' % rng.below(1000)
         self.files['src/sp ace.rs'] = 'pub fn s() -> u32 { 5 }\n'
+        self.files['assets/plugin.so'] = 'ELF-not-really %d\n' % rng.below(1000)   # embedded with include_bytes!: a source like any other
         self.files['src/fast.rs'] = 'pub fn speed() -> u32 { 9 }\n'        # only part of an optimised build (-C opt-level)
         self.files['src/slow.rs'] = 'pub fn speed() -> u32 { 1 }\n'
         self.files['data/d.txt'] = 'tok t0000\nincluded text %d\n' % rng.below(1000)
@@ -334,6 +336,7 @@ STEPS.update({
     'color_none': lambda c: setattr(c, 'color', None),
     # line endings only, of the include_str!d file and of a module
     # a module that only exists under cfg(not(debug_assertions)), i.e. because of -C opt-level
+    'edit_plugin': lambda c: append_line(c, 'assets/plugin.so', 'more plugin bytes %d\n'),
     'edit_fast': lambda c: append_line(c, 'src/fast.rs', 'pub fn f_added_%d() {}\n'),
     'crlf_inc': lambda c: toggle_crlf(c, 'data/d.txt'), 'crlf_src': lambda c: toggle_crlf(c, 'src/alpha.rs'),
 })
@@ -365,7 +368,8 @@ FIXED_HISTORIES.append(['swap_src', 'swap_src', 'swap_src', 'remap_on', 'cwd_swa
 FIXED_HISTORIES.append(['color_never', 'edit_lib', 'color_always', 'color_none', 'edit_mod', 'color_never', 'color_always', 'warn', 'color_never',
                         'crlf_inc', 'crlf_inc', 'crlf_src', 'edit_included', 'crlf_inc', 'crlf_src'])
 RANDOM_POOL.extend(['color_never', 'color_always', 'color_none', 'crlf_inc', 'crlf_src', 'edit_fast'])
-FIXED_HISTORIES[2] = FIXED_HISTORIES[2] + ['edit_fast', 'same', 'edit_fast']
+FIXED_HISTORIES[2] = FIXED_HISTORIES[2] + ['edit_fast', 'same', 'edit_fast', 'edit_plugin', 'same', 'edit_plugin']
+RANDOM_POOL.append('edit_plugin')
 RANDOM_POOL.extend(['ss_src', 'sm_src', 'ss_inc', 'sm_inc', 'ss_ext', 'sm_ext', 'ss_static', 'sm_static', 'swap_src', 'remap_on', 'remap_off'])
 
 
